@@ -71,6 +71,7 @@ fn worker(
     receiver: Receiver<BoxedDispatchable>,
     guard: CounterGuard,
     timeout: Duration,
+    first: BoxedDispatchable,
 ) -> impl FnOnce() {
     move || {
         // The dispatcher has already counted this thread in `counter`; the guard
@@ -82,6 +83,10 @@ fn worker(
             _guard.0.load(Ordering::Acquire) as u64,
             0,
         );
+        // The dispatchable this thread was spawned for. It is not sent through the
+        // rendezvous channel: a worker that timed out before the dispatcher got to
+        // `send` would leave the dispatcher blocked forever.
+        first.run();
         while let Ok(f) = receiver.recv_timeout(timeout) {
             f.run()
         }
@@ -143,8 +148,12 @@ impl AsyncifyPool {
                         let guard = CounterGuard(self.counter.clone());
                         #[cfg(compio_verif)]
                         crate::verif::sched_point(10);
-                        std::thread::spawn(worker(self.receiver.clone(), guard, self.recv_timeout));
-                        self.sender.send(f).expect("the channel should not be full");
+                        std::thread::spawn(worker(
+                            self.receiver.clone(),
+                            guard,
+                            self.recv_timeout,
+                            f,
+                        ));
                         Ok(())
                     }
                 }
